@@ -141,6 +141,9 @@ def check_roles(ctx, db, rid, only_functions=None, only_objects=None, floor=1):
         ent = ROLES.get(key)
         if ent is None and key[2] in ANY_OBJECTS:
             ent = ('any', ANY_OBJECTS[key[2]])
+        if ent is None and (rel(success_order(e)) and acq(success_order(e))):
+            # an operation the table does not know, but with an order (acq_rel / seq_cst) that satisfies every role
+            ent = ('pubcons', 'not in the role table; its order satisfies the strictest role')
         if ent is None:
             unclassified.append('%s %s on %s at %s' % key[:3] + (relloc(e['loc']),) if False else '%s: %s on %s at %s' % (key[0], key[1], key[2], relloc(e['loc'])))
             continue
